@@ -8,9 +8,18 @@
    `out` lists them newest first.  D, L, P, gen, enc, decode, life are arbitrary;
    the only assumption is that unpickling what was pickled gives it back. *)
 From Coq Require Import ZArith List Bool.
-From PG Require Import Lib.Str Model.Cache Proofs.C10Facts.
+From PG Require Import Lib.Str Model.Cache Proofs.C10Facts Gen.CacheSite Proofs.C10Site.
 Import ListNotations.
 Local Open Scope Z_scope.
+
+(* T: where the cache file lives and when it is believed, as the source says it now (Gen/CacheSite.v, regenerated
+   from handlers/dir.py on every run): options read = {cachefile, cachetime, ignorepatt}; one file per directory,
+   `selector + "/" + cachefile` (injective in the selector); freshness test
+   `time.time() - statval[ST_MTIME] < cachetime` evaluated inside loadcache(); both loadcache() and savecache()
+   leave an unwritable VFS (archives) alone. *)
+Theorem C10_cache_site_is_modelled : cache_site_check = true.
+Proof. exact cache_site_as_modelled. Qed.
+Print Assumptions C10_cache_site_is_modelled.
 
 (* the invariant, for every history: the cached list is gen of the directory as it
    was at the file's birth time, which is not in the future, and was returned by
